@@ -454,6 +454,85 @@ func run(r *eng.Runner) {
 		}
 	}
 	runTagRoute(r, fs, a16)
+	runKinds(r, a16)
+}
+
+// KindCase: the input is handed over as another Go kind than a plain string (a value marked safe, a pointer to a
+// string, values that render through String()), under autoescape ON where the statement is about `safe`, and through
+// ApplyFilter where it is about escape.
+type KindCase struct {
+	Kind string `json:"kind"` // safevalue | strptr | stringer | stringer-ptr | named-stringer
+	In   eng.Q  `json:"in"`
+}
+
+func (c *KindCase) ID() string { return fmt.Sprintf("kind %s %q", c.Kind, string(c.In)) }
+
+type stringerS struct{ s string }
+
+func (x stringerS) String() string { return x.s }
+
+type namedStr string
+
+func (x namedStr) String() string { return string(x) }
+
+func (c *KindCase) Exec(t *eng.T) {
+	t.Nontrivial()
+	in := string(c.In)
+	var v any
+	switch c.Kind {
+	case "safevalue":
+		v = pongo2.AsSafeValue(in)
+	case "strptr":
+		v = &in
+	case "stringer":
+		v = stringerS{in}
+	case "stringer-ptr":
+		v = &stringerS{in}
+	case "named-stringer":
+		v = namedStr(in)
+	}
+	t.Outcome(c.Kind)
+	// escape / e: the output is harmless and decodes to the text, whatever marks the input carries
+	for _, f := range []string{"escape", "e"} {
+		out, err := pongo2.ApplyFilter(f, pongo2.AsValue(v), nil)
+		if c.Kind == "safevalue" {
+			out, err = pongo2.ApplyFilter(f, v.(*pongo2.Value), nil)
+		}
+		if err != nil {
+			t.Fail(f+":error", "%s(%s) fails: %v", f, c.ID(), err)
+			continue
+		}
+		if c.Kind != "stringer" && c.Kind != "stringer-ptr" && c.Kind != "named-stringer" || true {
+			if strings.ContainsAny(out.String(), "<>\"'") || html.UnescapeString(out.String()) != in {
+				t.Fail(f+":kind:"+c.Kind, "%s applied to the %s %q gives %q (must hold none of < > \" ' and unescape to the text)", f, c.Kind, in, out.String())
+			}
+		}
+		o := px.Render(nil, "{{ v|"+f+"|safe }}", pongo2.Context{"v": v})
+		if o.Failed() || strings.ContainsAny(o.S, "<>\"'") || html.UnescapeString(o.S) != in {
+			t.Fail(f+":kind-template:"+c.Kind, "{{ v|%s|safe }} with the %s %q renders %s", f, c.Kind, in, o)
+		}
+	}
+	// safe: returns its input unchanged - also under autoescape on
+	o := px.Render(nil, "{{ v|safe }}", pongo2.Context{"v": v})
+	if o.Failed() || o.S != in {
+		t.Fail("safe:kind:"+c.Kind, "{{ v|safe }} (autoescape on) with the %s %q renders %s, want the text unchanged", c.Kind, in, o)
+	}
+	o = px.Render(nil, "{% autoescape off %}{{ v }}{% endautoescape %}|{{ v|safe|safe }}", pongo2.Context{"v": v})
+	if o.Failed() || o.S != in+"|"+in {
+		t.Fail("safe:kind:"+c.Kind, "autoescape-off / double safe with the %s %q renders %s", c.Kind, in, o)
+	}
+}
+
+func runKinds(r *eng.Runner, a16 []string) {
+	r.Group("value-kinds", "c17.kind", "every string of <=2 special symbols handed over as a value marked safe, a *string, a Stringer struct, a pointer to it, a named string type with String(): escape/e (ApplyFilter and template) and safe under autoescape on")
+	for _, k := range []string{"safevalue", "strptr", "stringer", "stringer-ptr", "named-stringer"} {
+		enum.Strings(a16, 2, func(s string, _ []int) bool {
+			if utf8.ValidString(s) {
+				r.Do(&KindCase{Kind: k, In: eng.Q(s)})
+			}
+			return !r.Stopped()
+		})
+	}
 }
 
 func runTagRoute(r *eng.Runner, fs []fp, a16 []string) {
@@ -468,6 +547,7 @@ func runTagRoute(r *eng.Runner, fs []fp, a16 []string) {
 }
 
 func init() {
+	eng.RegisterCase("c17.kind", func() eng.Case { return &KindCase{} })
 	eng.RegisterCase("c17.case", func() eng.Case { return &Case{} })
 	eng.Register(&eng.Check{
 		ID:    "C17",
